@@ -381,6 +381,7 @@ struct E1 : Engine {
 		bool faults = r.below(3) == 0;
 		if(prop == "C12" && r.below(4) == 0){ J fa = J::arr(); int nf = 1 + (int)r.below(3); for(int i=0;i<nf;i++) fa.push((int)r.below(r.below(2) ? 6 : 60)); p["disk_fail_at"] = fa; p["disk_sticky"] = (int)r.below(2); }   // disk full / I/O error while an upload spills to its temporary file
 		p["p_short_read"] = r.below(2) ? (int)r.below(500) : 0; p["p_short_write"] = r.below(2) ? (int)r.below(500) : 0; p["p_eintr"] = faults ? (int)r.below(40) : 0; p["p_spurious"] = faults ? (int)r.below(80) : 0;
+		if(r.below(6) == 0){ J af = J::arr(); int n = 1 + (int)r.below(3); for(int k=0;k<n;k++) af.push((int)r.below(8)); p["accept_fail_at"] = af; }   /* descriptor exhaustion: these accept() calls fail with EMFILE although a connection is pending; the service must go on accepting afterwards */
 		int nconn = 1 + r.below(prop == "C03" ? 3 : 5);
 		// a slow reader is alone in its plan: wherever a write blocks (a synchronous application on a worker thread, an asynchronous one that chose a blocking io mode) it
 		// legitimately starves the other connections, which is not what is being checked
@@ -560,6 +561,7 @@ struct E1 : Engine {
 		simk::Params sp; sp.sched_seed = (uint64_t)plan.geti("sched_seed",1); sp.fault_seed = (uint64_t)plan.geti("fault_seed",1); sp.strategy = (int)(((plan.geti("strategy") % 3) + 3) % 3);
 		sp.pct_depth = (int)std::max<int64_t>(1,std::min<int64_t>(plan.geti("pct_depth",2),8)); sp.pct_len = (int)std::max<int64_t>(1,plan.geti("pct_len",500)); sp.tick_us = (int)std::max<int64_t>(1,std::min<int64_t>(plan.geti("tick_us",1),10000));
 		sp.p_short_read = (unsigned)std::max<int64_t>(0,std::min<int64_t>(plan.geti("p_short_read"),1000)); sp.p_short_write = (unsigned)std::max<int64_t>(0,std::min<int64_t>(plan.geti("p_short_write"),1000));
+		{ const J &af = plan.get("accept_fail_at"); for(size_t k=0;k<af.size() && k<6;k++) sp.accept_fail_at.push_back((uint32_t)std::max<int64_t>(0,std::min<int64_t>(af.a[k].as_int(),1000))); }
 		sp.p_eintr = (unsigned)std::max<int64_t>(0,std::min<int64_t>(plan.geti("p_eintr"),200)); sp.p_spurious = (unsigned)std::max<int64_t>(0,std::min<int64_t>(plan.geti("p_spurious"),300));
 		sp.stdio_track = "/cppcms_uploads_"; if(plan.has("disk_fail_at")){ const J &fa = plan.get("disk_fail_at"); for(size_t i=0;i<fa.size() && i<8;i++) sp.stdio_fail_at.push_back((uint32_t)std::max<int64_t>(0,std::min<int64_t>(fa.a[i].as_int(),100000))); sp.stdio_sticky = plan.geti("disk_sticky") != 0; }
 		sp.max_steps = 6000000; sp.text_trace = plan.geti("text_trace");
@@ -720,7 +722,7 @@ struct E1 : Engine {
 		if(res.ok) for(auto &kv:aw.on_error){ if(kv.second > 1) res.fail("upload-error-notified-twice","request " + kv.first + ": content filter on_error() called " + std::to_string(kv.second) + " times"); else if(aw.completed.count(kv.first)) res.fail("error-and-completion","request " + kv.first + ": on_error() was called and the handler completed as well"); n_on_error += kv.second; }
 		if(res.ok && leaked) res.fail("descriptor-leak",std::to_string(leaked) + " simulated descriptors still open after the service was destroyed");
 		if(res.ok && !aw.exception.empty()) res.fail("exception-escaped",aw.exception);
-		res.counters["raw_mode_responses"] = n_raw; res.counters["client_aborts_mid_response"] = n_aborted; res.counters["filter_on_error_calls"] = n_on_error; res.counters["content_filter_requests"] = n_filtered; res.counters["filter_reads_parts"] = n_filter_reads; res.counters["host_mounted_app_requests"] = n_host_app; res.counters["filters_installed"] = aw.filters_installed; res.counters["over_limit_413"] = n_over_limit; res.counters["gzip_announced_empty_body"] = n_gzip_empty; res.counters["malformed_exchanges"] = n_bad; res.counters["malformed_refused_as_required"] = n_bad_refused; res.counters["page_cache_hits"] = n_cache_hits; res.counters["exchanges"] = n_ex; res.counters["multi_segment_requests"] = n_multi_seg; res.counters["requests_with_body"] = n_body; res.counters["keepalive_followups"] = n_keepalive_followups; res.counters["writer_responses"] = n_writer; res.counters["gzip_responses"] = n_gzip; res.counters["chunked_responses"] = n_chunked;
+		res.counters["raw_mode_responses"] = n_raw; res.counters["client_aborts_mid_response"] = n_aborted; res.counters["filter_on_error_calls"] = n_on_error; res.counters["content_filter_requests"] = n_filtered; res.counters["filter_reads_parts"] = n_filter_reads; res.counters["host_mounted_app_requests"] = n_host_app; res.counters["accept_emfile"] = (long long)simk::stats().accept_emfile; res.counters["filters_installed"] = aw.filters_installed; res.counters["over_limit_413"] = n_over_limit; res.counters["gzip_announced_empty_body"] = n_gzip_empty; res.counters["malformed_exchanges"] = n_bad; res.counters["malformed_refused_as_required"] = n_bad_refused; res.counters["page_cache_hits"] = n_cache_hits; res.counters["exchanges"] = n_ex; res.counters["multi_segment_requests"] = n_multi_seg; res.counters["requests_with_body"] = n_body; res.counters["keepalive_followups"] = n_keepalive_followups; res.counters["writer_responses"] = n_writer; res.counters["gzip_responses"] = n_gzip; res.counters["chunked_responses"] = n_chunked;
 		{ long long np = 0, nr = 0; for(auto &cl:clients){ np += cl->n_pauses; nr += cl->n_read_pauses; } res.counters["slow_peer_pauses"] = np; res.counters["slow_reader_pauses"] = nr; }
 		res.counters["pipelined_requests"] = n_pipelined;
 		res.counters["disk_faults_injected"] = (long long)st.stdio_fail; res.counters["upload_spill_stdio_calls"] = (long long)st.stdio_ops; res.counters["uploads_refused_after_disk_fault"] = n_disk_refused;
